@@ -11,6 +11,7 @@
 #include <cocls/with_allocator.h>
 
 #include <cstring>
+#include <algorithm>
 #include <memory>
 #include <sstream>
 
@@ -176,8 +177,8 @@ enum Policy { P_DEFAULT = 0, P_REUSABLE, P_MTSAFE, P_STACK, P_PLACEMENT, P_BUFFE
 static const char *pol_names[] = {"default", "reusable", "reusable_mtsafe", "stack_storage", "placement_alloc", "reusable_buffer", "extra+default", "extra+reusable", "extra+reusable_mtsafe", "reusable_buffer<24-byte items>", "extra(alignas16)+default", "extra(alignas16)+reusable"};
 static bool single_frame(int p) { return p == P_REUSABLE || p == P_PLACEMENT || p == P_BUFFER || p == P_EXTRA_REUSABLE || p == P_BUFFER24 || p == P_EXTRA16_REUSABLE; }
 
-enum { CREATE_S = 0, CREATE_M, CREATE_L, FINISH0, FINISH1, FINISH2, MOVE_CTOR, MOVE_ASSIGN, MOVE_AWAY, MOVE_ASSIGN_WARM, NOPS };
-static const char *op_names[] = {"create(S)", "create(M)", "create(L)", "finish(0)", "finish(1)", "finish(2)", "move-construct-storage", "move-assign-storage", "move-away-and-keep-using-the-source", "move-assign-onto-storage-that-owns-a-block"};
+enum { CREATE_S = 0, CREATE_M, CREATE_L, FINISH0, FINISH1, FINISH2, MOVE_CTOR, MOVE_ASSIGN, MOVE_AWAY, MOVE_ASSIGN_WARM, CREATE_NOMEM, NOPS };
+static const char *op_names[] = {"create(S)", "create(M)", "create(L)", "finish(0)", "finish(1)", "finish(2)", "move-construct-storage", "move-assign-storage", "move-away-and-keep-using-the-source", "move-assign-onto-storage-that-owns-a-block", "create(M)-while-operator-new-fails"};
 
 static std::string describe(int pol, const std::vector<int> &seq) {
     std::ostringstream o;
@@ -351,6 +352,29 @@ static void run_policy(seqx::Runner &R, int pol, const std::vector<int> &seq) {
                 if (cls > max_cls_seen && !(is_mtsafe && !live.empty())) max_cls_seen = cls;
                 seqx::NoCount nc;
                 live.push_back(std::move(s));
+            } else if (op == CREATE_NOMEM) {
+                // the thread-safe storage is taken (a frame lives in its block): the next frame would go to the heap, and the heap
+                // has nothing to give. The creation fails with bad_alloc and leaves everything as it was - the block still
+                // belongs to the frame that lives in it
+                std::unique_ptr<Slot> s;
+                {
+                    seqx::NoCount nc;
+                    s.reset(new Slot());
+                }
+                s->gate_p = s->gate.get_promise();
+                auto &st = h->next();
+                bool threw = false;
+                seqx::g_fail_next_new = true;
+                try {
+                    start_coro(st, s.get(), 1, tag++);
+                } catch (const std::bad_alloc &) {
+                    threw = true;
+                }
+                seqx::g_fail_next_new = false;
+                if (!threw || s->started) R.fail("storage/harness", "creation with a failing operator new: threw=%d started=%d", (int)threw, (int)s->started);
+                s->gate_p();
+                seqx::NoCount nc;
+                s.reset();
             } else if (op == MOVE_ASSIGN_WARM) {
                 if constexpr (requires { h->move_assign_onto_warm(); }) h->move_assign_onto_warm();
             } else if (op == MOVE_CTOR || op == MOVE_ASSIGN || op == MOVE_AWAY) {
@@ -528,6 +552,15 @@ static void dfs(seqx::Runner &R, int pol, int depth, std::vector<int> &seq, int 
             if (nlive >= (single_frame(pol) ? 1 : 3)) continue;
             seq.push_back(op);
             dfs(R, pol, depth, seq, nlive + 1);
+            seq.pop_back();
+        } else if (op == CREATE_NOMEM) {
+            if ((pol != P_MTSAFE && pol != P_EXTRA_MTSAFE) || nlive == 0 || nlive >= 3) continue;
+            // only while the block is certainly taken (nothing has finished yet, so the first frame still lives in it): the failing
+            // allocation is then the heap fallback. (A failing allocation while the block is free and too small leaves
+            // reusable_storage with a dangling block pointer - resource exhaustion is outside the property, see DESIGN section 6.)
+            if (std::find_if(seq.begin(), seq.end(), [](int o) { return o >= FINISH0 && o <= FINISH2; }) != seq.end()) continue;
+            seq.push_back(op);
+            dfs(R, pol, depth, seq, nlive);
             seq.pop_back();
         } else if (op == MOVE_CTOR || op == MOVE_ASSIGN || op == MOVE_AWAY || op == MOVE_ASSIGN_WARM) {
             if (pol != P_REUSABLE || nlive != 0 || seq.empty() || seq.back() >= MOVE_CTOR) continue;
